@@ -14,10 +14,10 @@ CHECKS = {
         note='Bounded: 3 interfaces (+1 implemented by a metaclass), 3-5 classes, 4-6 instances, depth as reported in the evidence. Trusts the reference model and CPython.', ref='3/C01'),
     'C02': dict(technique=E1 + '; oracle = reachability over current __bases__ + twin graph built in the final shape',
         text='All sequences of __bases__ reassignments (and declaration calls that re-base class/instance declarations) up to the depth on a mixed specification graph; every specification checked in every state.',
-        note='4 interfaces + 2 class declarations + 1 instance declaration + 1 plain Declaration; base lists <= 2 (thorough 3); cycles excluded.', ref='3/C02'),
+        note='4 interfaces + 2 class declarations + 1 instance declaration + 1 plain Declaration; base lists <= 2 (thorough 3); cycles excluded. Extra layers: assignments nested inside a change notification (a dependent re-bases another interface), and a search that starts from a pre-built graph with a chain and a redundant edge.', ref='3/C02'),
     'C03': dict(technique=E2 + '; oracles: textbook C3 and CPython type.mro(), cross-checked; plus E1 rebasing histories',
         text='Every ordered-base DAG up to 5 nodes (thorough: 6-node extensions) as real interfaces, class hierarchies with declarations, strict/legacy arguments and environment switches in separate processes, and all rebasing histories up to depth 2/3.',
-        note='Bounded DAG size; trusts CPython MRO and the 20-line C3.', ref='3/C03'),
+        note='Bounded DAG size; trusts CPython MRO and the 20-line C3. Environments: default, strict, legacy, log-changed, track-bad; DAGs of falsy interfaces.', ref='3/C03'),
     'C04': dict(technique=E2 + '; brute-force ranking oracle over the registration list',
         text='Every registry content up to size 2 (thorough 3) over a key universe of arity 0-2 keys, placed in the registry or a base, x every lookup key, both registry flavours; plus every sequence of <= 4 (thorough 5) register/unregister operations over a five-interface provided hierarchy (the extendors lists are order dependent).',
         note='Fixed hierarchy with both orders of multiple inheritance, class and instance declarations as keys; ambiguity between incomparable provided interfaces accepted either way.', ref='3/C04'),
@@ -35,13 +35,13 @@ CHECKS = {
         note='7 single-arity keys + 3 two-arity keys, 3 factories, both flavours.', ref='3/C08'),
     'C09': dict(technique=E1 + '; dict + list model; differential replay of listings and rebuild()',
         text='All register/unregister/subscribe/unsubscribe/rebuild histories up to the depth over 7-9 keys; listings compared exactly in every state, lookups against the brute-force winner and against a re-populated registry.',
-        note='Depth-bounded; values a, a\' (equal, not identical), b.', ref='3/C09'),
+        note='Depth-bounded; values a, a\' (equal, not identical), b (falsy). Plans: seven keys, three keys deeper, keys sharing a two-level required path, subscribers only (deeper).', ref='3/C09'),
     'C10': dict(technique='lock-step differential model checking: the same exhaustively enumerated programs (history BFS alphabets, complete input products, odd-values alphabet) executed under the C accelerator and PURE_PYTHON=1 in separate processes, per-step observations compared',
         text='Lock-step BFS over the alphabets of C01/C02/C06/C07/C09/C16, exact-result enumeration of the C04/C08/C14/C19/C20 input spaces, and an odd-values alphabet through every public entry point, and odd (non-string, falsy, unhashable) names through every name-taking entry point cold and warm.',
         note='"Any program" = union of the bounded alphabets; exception messages are not compared, only types. Two recorded known-finding signatures (hostile __class__ on a name argument).', ref='3/C10'),
     'C11': dict(technique='(a) exhaustive fault/re-entrancy injection: every call-out site of a lookup x every action; (b) stateless model checking of real threads under a cooperative scheduler (sys.settrace scheduling points), all schedules up to a preemption bound; oracles: atomicity vs twin worlds, no stale survivor, ownership audit of cache containers at the call-out, reference audit after the lookup ended, leak check',
-        text='Every (flavour, entry point, site, action, warm/cold) injection scenario; every mutator || lookup harness (9 mutators incl. one that shrinks the extendors list a lookup is walking) over all schedules with <= 1 preemption (core harnesses 2; thorough 2/3), lookup-only and three-thread harnesses.',
-        note='Scheduling granularity = trace events in adapter.py/interface.py/declarations.py, C code atomic (GIL); memory safety through the ownership audit, not a memory checker; atomicity is only required with respect to registry mutations.', ref='3/C11'),
+        text='Every (flavour, entry point, site, action, warm/cold) injection scenario (sites: every callback out of a lookup incl. destructors of cached values and of lazily produced required specifications; actions: mutations, re-entrant lookups, gc, exceptions, mutations whose closing invalidation fails), each followed by later registrations in every base and a later change of the looked-up interface; every mutator || lookup harness (11 mutators) over all schedules with <= 1 preemption (core harnesses 2; thorough 2/3), lookup-only and three-thread harnesses, harnesses whose lookup object already watches the looked-up specifications, and verifying lookups that recompute their resolution order while a registry above is re-based.',
+        note='Scheduling granularity = trace events in adapter.py/interface.py/declarations.py (ro.py too where a resolution order is recomputed), C code atomic (GIL); the library\'s module-level locks are replaced by scheduler-aware locks (deadlocks and hangs are reported); memory safety through the ownership audit plus a valgrind memcheck pass over the injection scenarios; atomicity is only required with respect to registry mutations.', ref='3/C11'),
     'C12': dict(technique=E2 + ' in 8 processes (4 hash seeds x 2 implementations) whose complete result matrices must be identical',
         text='All ordered pairs under six comparison operators and hash, all triples, sorted() of 4-element mixed sub-collections in many permutations.',
         note='Four hash seeds stand for all hash seeds; names over a 6-element alphabet incl. empty, prefix-related and non-ASCII, every interface with its own (non-interned) string objects; blank-containing names. One recorded known finding (== between a None-named and a named interface raises in the Python implementation).', ref='3/C12'),
@@ -50,7 +50,7 @@ CHECKS = {
         note='Shapes are those of fixtures/zi_fix13.py (22 classes x 9 instance shapes). One recorded known finding (ClassProvides round trip is a new unequal object).', ref='3/C13'),
     'C14': dict(technique=E2 + '; 15-line interpreter of the documented order producing result, exception type and call log',
         text='Full product of __conform__ behaviours x provided x hook lists x alternate forms x custom __adapt__ (own, inherited, inherited next to another interfacemethod, overriding), plus registry adapter_hook cases.',
-        note='The unbound-__conform__-through-a-class special case is outside the alphabet.', ref='3/C14'),
+        note='Adaptees: instances, instances without __dict__, class objects (metaclass / classmethod / plain-function __conform__); hooks that uninstall hooks before answering; an overridden providedBy.', ref='3/C14'),
     'C15': dict(technique=E2 + ' plus E1 rebasing histories with accessors called before/between/after',
         text='Every interface DAG up to 4 (thorough 5) nodes x every subset of defining nodes (None-valued tags included); rebasing histories of depth <= 2 incl. twin swaps; observers that look at / fail inside the change notification.',
         note='One attribute name, one tag, one invariant per node. One recorded known finding (a twin of a live dependent misses change notifications).', ref='3/C15'),
@@ -58,16 +58,16 @@ CHECKS = {
         text='All histories of the eight register/unregister methods, re-initialisation and rebuild up to the depth with equal/identical, hashable/unhashable components, each plan also with every listing and query after every call (warm caches).',
         note='Events captured by rebinding zope.interface.registry.notify (zope.event is absent in the image).', ref='3/C16'),
     'C17': dict(technique=E2 + '; semantic oracle: inspect.signature(impl).bind over every call shape the interface signature admits',
-        text='All pairs of interface/implementation signatures in the grid x 4 candidate kinds; all subsets of 7 defects x tentative x verifyObject/verifyClass; the same function object verified in two roles in either order.',
+        text='All pairs of interface/implementation signatures in the grid x 10 candidate kinds (functions on instances, methods, classes, own and inherited staticmethods, instances taken through *args, descriptions of a Method subclass or named differently from their key); all subsets of 8 defects x tentative x verifyObject/verifyClass; the same function object verified in two roles in either order.',
         note='Grid: required 0-2 x optional 0-2 x *args x **kw (thorough 0-3).', ref='3/C17'),
     'C18': dict(technique=E2 + '; oracle: inspect.signature',
-        text='Every signature within the parameter-count bounds described through fromFunction, fromMethod, an interface body and ABCInterfaceClass.',
+        text='Every signature within the parameter-count bounds described through fromFunction (also with imlevel=1, as verifyClass does), fromMethod, an interface body and ABCInterfaceClass.',
         note='<= 2 (thorough 3) parameters of each kind; default values of several types; defaulted self; ABC methods without explicit self.', ref='3/C18'),
     'C19': dict(technique='exhaustive enumeration of declaration histories before and after the first super query on real class hierarchies; model of C01 restricted to the remainder of the MRO; both implementations',
         text='Every class shape x every sequence of 2 (thorough 3) declaration operations before the first super query x every operation after it x every (C, ob) along the MRO x 5 adaptation entry points.',
-        note='Shapes: chain, diamond, mixin, diamond with mixin, two leaves sharing (C, next class), builtin type in the MRO tail; objects also carry an instance-level declaration.', ref='3/C19'),
+        note='Shapes: chain, diamond, mixin, diamond with mixin, two leaves sharing (C, next class), builtin type in the MRO tail; objects also carry an instance-level declaration; a second pass asks the less derived class first, on bare instances, starting with the proxy of a middle class.', ref='3/C19'),
     'C20': dict(technique=E2 + '; ordered-set model',
-        text='Every argument list up to length 3 (thorough 4) in 9 nesting variants, every pair of declarations under + - in, class and instance specifications, and the users noLongerProvides / alsoProvides / directlyProvidedBy.',
+        text='Every argument list up to length 3 (thorough 4) in 9 nesting variants, every pair of declarations under + - in, class and instance specifications, and the users noLongerProvides / alsoProvides (against its documented equivalent on a twin object) / directlyProvidedBy; bare interfaces and class specifications as right operands of +.',
         note='Relative order among the right operand\'s own new interfaces is not constrained (not stated).', ref='3/C20'),
 }
 
